@@ -11,6 +11,8 @@ import DimModel.Props.C08
 import DimModel.Props.C10
 import DimModel.Props.C12
 import DimModel.Props.C17
+import DimModel.Proofs.C16
+import DimModel.Proofs.C16Ds
 namespace DimModel
 open Lib
 
@@ -102,5 +104,740 @@ theorem attrs_dropped_stack {α : Type} [Inhabited α] (nan : α) (arrays : List
 
 theorem axis_attrs_kept_select (ax : Axis) (ps : List Nat) : (axisSelect ax ps).attrs = ax.attrs := rfl
 theorem axis_attrs_kept_take (ax : Axis) (ps : List Nat) : (axisTake ax ps).attrs = ax.attrs := rfl
+
+
+/-! ## the complete propagation table: one pair of theorems per mirror function
+
+Vocabulary (defined in `DimModel/Proofs/C16.lean`):
+* `axisMeta axes` - the list of `(name, attrs)` pairs of the axes, in order;
+* `AxisAttrsKept src dst` - every axis of `dst` that has the name of an axis of `src` has that axis' metadata;
+  `AxisAttrsKeptExcept d src dst` - the same for every axis but the one called `d`;
+* `metaAll axes` - every `(name, attrs)` pair found in `axes`: on an axis, or on a member of a grouped axis;
+* `AxisLe x y` - `x` has the name and the metadata of `y` (and no member that `y` has not).
+Every theorem speaks about an arbitrary successful call (`f … = .ok r`): no bound on rank, sizes or labels. -/
+
+/-! ### indexing and assignment (`Lib/GetSet.lean`) -/
+
+/-- `take` (every spelling of the index: tuple / dict / `axis=`, label or position mode, `keepdims`, `tol`)
+keeps the array's metadata -/
+theorem take_attrs {α : Type} (a r : DimArray α) (ui : UserIndex) (cfg : IndexCfg) (h : take a ui cfg = .ok r) :
+    r.attrs = a.attrs := (C16.take_spec a r ui cfg h).1
+
+/-- ... and the surviving axes keep their name and metadata, in order (the scalar-indexed ones are dropped) -/
+theorem take_axis_attrs {α : Type} (a r : DimArray α) (ui : UserIndex) (cfg : IndexCfg) (h : take a ui cfg = .ok r) :
+    (axisMeta r.axes).Sublist (axisMeta a.axes) ∧ ((a.axes.map (·.name)).Nodup → AxisAttrsKept a.axes r.axes) :=
+  ⟨(C16.take_spec a r ui cfg h).2, C16.kept_of_sublist (C16.take_spec a r ui cfg h).2⟩
+
+/-- `put` keeps the array's metadata ... -/
+theorem put_attrs {α : Type} (a r : DimArray α) (ui : UserIndex) (rhs : RHS α) (rk : Kind) (cfg : IndexCfg) (cast : Bool)
+    (h : put a ui rhs rk cfg cast = .ok r) : r.attrs = a.attrs := (C16.put_spec a r ui rhs rk cfg cast h).1
+
+/-- ... and the very same axes -/
+theorem put_axis_attrs {α : Type} (a r : DimArray α) (ui : UserIndex) (rhs : RHS α) (rk : Kind) (cfg : IndexCfg) (cast : Bool)
+    (h : put a ui rhs rk cfg cast = .ok r) : r.axes = a.axes := (C16.put_spec a r ui rhs rk cfg cast h).2
+
+theorem putBool_attrs {α : Type} (a r : DimArray α) (mask : NDArr Bool) (v : α) (rk : Kind) (cast : Bool)
+    (h : putBool a mask v rk cast = .ok r) : r.attrs = a.attrs := (C16.putBool_spec a r mask v rk cast h).1
+
+theorem putBool_axis_attrs {α : Type} (a r : DimArray α) (mask : NDArr Bool) (v : α) (rk : Kind) (cast : Bool)
+    (h : putBool a mask v rk cast = .ok r) : r.axes = a.axes := (C16.putBool_spec a r mask v rk cast h).2
+
+/-! ### positional take, reindexing, sorting (`Lib/Align.lean`) -/
+
+theorem takeAxisPos_attrs {α : Type} (a : DimArray α) (pos : Nat) (ps : List Nat) :
+    (takeAxisPos a pos ps).attrs = a.attrs := rfl
+
+theorem takeAxisPos_axis_attrs {α : Type} (a : DimArray α) (pos : Nat) (ps : List Nat) :
+    axisMeta (takeAxisPos a pos ps).axes = axisMeta a.axes ∧
+      ((a.axes.map (·.name)).Nodup → AxisAttrsKept a.axes (takeAxisPos a pos ps).axes) :=
+  ⟨C16.takeAxisPos_meta a pos ps, C16.kept_of_eq (C16.takeAxisPos_meta a pos ps)⟩
+
+theorem reindexAxis_attrs {α : Type} (a r : DimArray α) (axis : DimKey) (newL : List Label) (nk : Kind) (fill : α)
+    (fk : Kind) (re : Bool) (m : Option Side) (h : reindexAxis a axis newL nk fill fk re m = .ok r) :
+    r.attrs = a.attrs := (C16.reindexAxis_spec a r axis newL nk fill fk re m h).1
+
+/-- every axis - the reindexed one included, also when new labels had to be written into it - keeps its name
+and metadata -/
+theorem reindexAxis_axis_attrs {α : Type} (a r : DimArray α) (axis : DimKey) (newL : List Label) (nk : Kind) (fill : α)
+    (fk : Kind) (re : Bool) (m : Option Side) (h : reindexAxis a axis newL nk fill fk re m = .ok r) :
+    axisMeta r.axes = axisMeta a.axes ∧ ((a.axes.map (·.name)).Nodup → AxisAttrsKept a.axes r.axes) :=
+  ⟨(C16.reindexAxis_spec a r axis newL nk fill fk re m h).2,
+    C16.kept_of_eq (C16.reindexAxis_spec a r axis newL nk fill fk re m h).2⟩
+
+theorem reindexLike_attrs {α : Type} (a r : DimArray α) (tmpl : List Axis) (fill : α) (fk : Kind) (re : Bool)
+    (m : Option Side) (h : reindexLike a tmpl fill fk re m = .ok r) : r.attrs = a.attrs :=
+  (C16.reindexLike_spec a r tmpl fill fk re m h).1
+
+/-- the axes keep THEIR OWN metadata: nothing is taken from the template's axes -/
+theorem reindexLike_axis_attrs {α : Type} (a r : DimArray α) (tmpl : List Axis) (fill : α) (fk : Kind) (re : Bool)
+    (m : Option Side) (h : reindexLike a tmpl fill fk re m = .ok r) :
+    axisMeta r.axes = axisMeta a.axes ∧ ((a.axes.map (·.name)).Nodup → AxisAttrsKept a.axes r.axes) :=
+  ⟨(C16.reindexLike_spec a r tmpl fill fk re m h).2, C16.kept_of_eq (C16.reindexLike_spec a r tmpl fill fk re m h).2⟩
+
+theorem sortAxis_attrs {α : Type} (a r : DimArray α) (axis : DimKey) (h : sortAxis a axis = .ok r) :
+    r.attrs = a.attrs := (C16.sortAxis_spec a r axis h).1
+
+theorem sortAxis_axis_attrs {α : Type} (a r : DimArray α) (axis : DimKey) (h : sortAxis a axis = .ok r) :
+    axisMeta r.axes = axisMeta a.axes ∧ ((a.axes.map (·.name)).Nodup → AxisAttrsKept a.axes r.axes) :=
+  ⟨(C16.sortAxis_spec a r axis h).2, C16.kept_of_eq (C16.sortAxis_spec a r axis h).2⟩
+
+/-! ### merging axes and aligning arrays (`Lib/Axes.lean`) -/
+
+/-- `Axis.union`: the name and metadata of `self` - except that an EMPTY `self` (joined with a different,
+hence non-empty, `other`) returns `other` with `other`'s name and metadata -/
+theorem union_axis_attrs (a b : Axis) :
+    (union a b).name = (if a.labels ≠ b.labels ∧ a.labels = [] then b.name else a.name) ∧
+    (union a b).attrs = (if a.labels ≠ b.labels ∧ a.labels = [] then b.attrs else a.attrs) := C16.union_attrs a b
+
+/-- `Axis.intersection`: the metadata of `self` - except that the intersection with an empty axis (or of an
+empty axis) is a fresh empty axis WITHOUT metadata -/
+theorem intersection_axis_attrs (a b : Axis) :
+    (intersection a b).name = a.name ∧
+    (intersection a b).attrs = (if a.labels ≠ b.labels ∧ (a.labels = [] ∨ b.labels = []) then [] else a.attrs) :=
+  C16.intersection_attrs a b
+
+/-- the common axis of several axes carries the metadata of one of them, or none -/
+theorem commonAxis_axis_attrs (join : Join) (l : List Axis) (c : Axis) (h : commonAxis join l = some c) :
+    c.attrs = [] ∨ ∃ x ∈ l, c.attrs = x.attrs := C16.commonAxis_attrs join l c h
+
+/-- `align` returns reindexed arrays: array by array, the array's metadata is KEPT ... -/
+theorem align_attrs {α : Type} (nan : α) (arrays rs : List (DimArray α)) (join : Join) (axis : Option String)
+    (sort strict : Bool) (h : align nan arrays join axis sort strict = .ok rs) :
+    rs.map (·.attrs) = arrays.map (·.attrs) :=
+  C16.Pointwise.map_eq (C16.align_spec nan arrays rs join axis sort strict h) _ (fun _ _ hxy => hxy.1)
+
+/-- ... and every axis keeps ITS OWN name and metadata: the metadata of the common (union / intersection) axis
+computed by `getAlignedAxes` is never used -/
+theorem align_axis_attrs {α : Type} (nan : α) (arrays rs : List (DimArray α)) (join : Join) (axis : Option String)
+    (sort strict : Bool) (h : align nan arrays join axis sort strict = .ok rs) :
+    rs.map (fun o => axisMeta o.axes) = arrays.map (fun o => axisMeta o.axes) :=
+  C16.Pointwise.map_eq (C16.align_spec nan arrays rs join axis sort strict h) _ (fun _ _ hxy => hxy.2.1)
+
+/-! ### the reshaping family (`Lib/Reshape.lean`) -/
+
+/-- (`transposeBy_attrs` is in `Props/C10.lean`.)  The axes are the very same `Axis` values, rearranged -/
+theorem transposeBy_axis_attrs {α : Type} (a : DimArray α) (p : List Nat) (hp : IsPerm p a.axes.length) :
+    (transposeBy a p).axes.Perm a.axes ∧ ((a.axes.map (·.name)).Nodup → AxisAttrsKept a.axes (transposeBy a p).axes) :=
+  ⟨(C16.transposeBy_perm a p hp).2, C16.kept_of_mem fun _ hx => (C16.transposeBy_perm a p hp).2.mem_iff.mp hx⟩
+
+theorem transpose_attrs {α : Type} (a r : DimArray α) (ks : Option (List DimKey)) (h : transpose a ks = .ok r) :
+    r.attrs = a.attrs := (C16.transpose_spec a r ks h).1
+
+theorem transpose_axis_attrs {α : Type} (a r : DimArray α) (ks : Option (List DimKey)) (h : transpose a ks = .ok r) :
+    r.axes.Perm a.axes ∧ ((a.axes.map (·.name)).Nodup → AxisAttrsKept a.axes r.axes) :=
+  ⟨(C16.transpose_spec a r ks h).2, C16.kept_of_mem fun _ hx => (C16.transpose_spec a r ks h).2.mem_iff.mp hx⟩
+
+theorem swapaxes_attrs {α : Type} (a r : DimArray α) (k1 k2 : DimKey) (h : swapaxes a k1 k2 = .ok r) :
+    r.attrs = a.attrs := (C16.swapaxes_spec a r k1 k2 h).1
+
+theorem swapaxes_axis_attrs {α : Type} (a r : DimArray α) (k1 k2 : DimKey) (h : swapaxes a k1 k2 = .ok r) :
+    r.axes.Perm a.axes ∧ ((a.axes.map (·.name)).Nodup → AxisAttrsKept a.axes r.axes) :=
+  ⟨(C16.swapaxes_spec a r k1 k2 h).2, C16.kept_of_mem fun _ hx => (C16.swapaxes_spec a r k1 k2 h).2.mem_iff.mp hx⟩
+
+theorem rollaxis_attrs {α : Type} (a r : DimArray α) (k : DimKey) (start : Int) (h : rollaxis a k start = .ok r) :
+    r.attrs = a.attrs := (C16.rollaxis_spec a r k start h).1
+
+theorem rollaxis_axis_attrs {α : Type} (a r : DimArray α) (k : DimKey) (start : Int) (h : rollaxis a k start = .ok r) :
+    r.axes.Perm a.axes ∧ ((a.axes.map (·.name)).Nodup → AxisAttrsKept a.axes r.axes) :=
+  ⟨(C16.rollaxis_spec a r k start h).2, C16.kept_of_mem fun _ hx => (C16.rollaxis_spec a r k start h).2.mem_iff.mp hx⟩
+
+theorem repeatAxis_attrs {α : Type} (a r : DimArray α) (newax : Axis) (k : DimKey) (h : repeatAxis a newax k = .ok r) :
+    r.attrs = a.attrs := (C16.repeatAxis_spec a r newax k h).1
+
+/-- `repeat`: the repeated (singleton) axis is REPLACED by the axis given as `values` - under the old name but with
+the metadata of the NEW axis (the metadata of the singleton axis is dropped); the other axes are untouched.
+(Python: `newaxes[idx] = values` when `values` is an `Axis` - the library then also takes over the NAME of that
+axis, which the mirror does not model: it always keeps the old name.) -/
+theorem repeatAxis_axis_attrs {α : Type} (a r : DimArray α) (newax : Axis) (k : DimKey) (h : repeatAxis a newax k = .ok r) :
+    ∃ pos, axisPos a.axes k = .ok pos ∧ pos < a.axes.length ∧
+      r.axes = a.axes.set pos { newax with name := (a.axes.getD pos default).name } ∧
+      ((a.axes.map (·.name)).Nodup → AxisAttrsKeptExcept (a.axes.getD pos default).name a.axes r.axes) := by
+  obtain ⟨_, pos, h1, h2, h3⟩ := C16.repeatAxis_spec a r newax k h
+  refine ⟨pos, h1, h2, h3, ?_⟩
+  apply C16.keptExcept_of_set (pos := pos) (X := newax.attrs)
+  rw [h3, C16.axisMeta_set]
+
+theorem newaxis_attrs {α : Type} (a r : DimArray α) (name : String) (pos : Int) (vals : Option Axis)
+    (h : newaxis a name pos vals = .ok r) : r.attrs = a.attrs := (C16.newaxis_spec a r name pos vals h).1
+
+/-- `newaxis`: the axes of `a` are untouched; the inserted axis has a new name and no metadata - or, when `values`
+is an axis, the metadata of that axis -/
+theorem newaxis_axis_attrs {α : Type} (a r : DimArray α) (name : String) (pos : Int) (vals : Option Axis)
+    (h : newaxis a name pos vals = .ok r) :
+    name ∉ a.dims ∧ (∃ p, p ≤ a.axes.length ∧
+      r.axes = a.axes.insertIdx p (match vals with
+        | none => C16.freshAxis name
+        | some v => { v with name := name })) ∧
+    ((a.axes.map (·.name)).Nodup → AxisAttrsKept a.axes r.axes) := by
+  obtain ⟨_, hn, p, hp, e⟩ := C16.newaxis_spec a r name pos vals h
+  refine ⟨hn, ⟨p, hp, e⟩, ?_⟩
+  intro hnd ax' hax' ax hax hname
+  rw [e] at hax'
+  rcases (List.mem_insertIdx hp).mp hax' with rfl | hin
+  · exfalso
+    apply hn
+    have : ax.name = name := by rw [← hname]; cases vals <;> rfl
+    rw [← this]; exact List.mem_map.mpr ⟨ax, hax, rfl⟩
+  · rw [C16.name_inj hnd hin hax hname]
+
+theorem squeeze_attrs {α : Type} (a r : DimArray α) (k : Option DimKey) (h : squeeze a k = .ok r) :
+    r.attrs = a.attrs := (C16.squeeze_spec a r k h).1
+
+theorem squeeze_axis_attrs {α : Type} (a r : DimArray α) (k : Option DimKey) (h : squeeze a k = .ok r) :
+    r.axes.Sublist a.axes ∧ ((a.axes.map (·.name)).Nodup → AxisAttrsKept a.axes r.axes) :=
+  ⟨(C16.squeeze_spec a r k h).2, C16.kept_of_mem fun _ hx => (C16.squeeze_spec a r k h).2.subset hx⟩
+
+theorem unflattenAt_attrs {α : Type} (a : DimArray α) (pos : Nat) : (unflattenAt a pos).attrs = a.attrs := rfl
+
+/-- `unflatten`: the members of the grouped axis come back with their own metadata; the metadata of the grouped
+axis itself is dropped with it -/
+theorem unflattenAt_axis_attrs {α : Type} (a : DimArray α) (pos : Nat) :
+    axisMeta (unflattenAt a pos).axes =
+      (axisMeta a.axes).take pos ++ (a.axes.getD pos default).members.map (fun m => (m.name, m.attrs)) ++
+        (axisMeta a.axes).drop (pos + 1) := by
+  simp [unflattenAt, axisMeta, List.map_take, List.map_drop, Axis0.toAxis]
+
+theorem unflattenAll_attrs {α : Type} (a : DimArray α) : (unflattenAll a).attrs = a.attrs :=
+  (C16.unflattenAll_spec a).1
+
+theorem unflattenAll_axis_attrs {α : Type} (a : DimArray α) : ∀ x ∈ (unflattenAll a).axes, BaseAxis a.axes x :=
+  (C16.unflattenAll_spec a).2
+
+theorem flatten_attrs {α : Type} (a r : DimArray α) (dims : List String) (insert : Option Nat)
+    (h : flatten a dims insert = .ok r) : r.attrs = a.attrs := (C16.flatten_spec a r dims insert h).1
+
+/-- `flatten`: the axes that are not grouped are the very same axes; the grouped axis is new, WITHOUT metadata, and
+its members are the grouped axes of `a` with their own metadata (`Axis.toAxis0` keeps `attrs`); no axis is lost -/
+theorem flatten_axis_attrs {α : Type} (a r : DimArray α) (dims : List String) (insert : Option Nat)
+    (h : flatten a dims insert = .ok r) :
+    ∃ (ins : Nat) (members others : List Axis),
+      r.axes = others.take ins ++ [multiAxis members] ++ others.drop ins ∧
+      (multiAxis members).attrs = [] ∧ (multiAxis members).members = members.map Axis.toAxis0 ∧
+      (∀ m ∈ members, m ∈ a.axes ∧ m.name ∈ dims) ∧ (∀ o ∈ others, o ∈ a.axes ∧ o.name ∉ dims) ∧
+      (∀ ax ∈ a.axes, ax ∈ members ∨ ax ∈ others) := by
+  obtain ⟨_, ins, members, others, _, h1, h2, h3, h4⟩ := C16.flatten_spec a r dims insert h
+  exact ⟨ins, members, others, h1, rfl, rfl, h2, h3, h4⟩
+
+theorem reshape_attrs {α : Type} (a r : DimArray α) (newdims : List String) (h : reshape a newdims = .ok r) :
+    r.attrs = a.attrs := (C16.reshape_spec a r newdims h).1
+
+/-- `reshape`, any input: no foreign metadata - every `(name, attrs)` pair of the result (axis or member of a
+grouped axis) is empty metadata or a pair of `a` -/
+theorem reshape_axis_attrs {α : Type} (a r : DimArray α) (newdims : List String) (h : reshape a newdims = .ok r) :
+    ∀ p ∈ metaAll r.axes, p.2 = [] ∨ p ∈ metaAll a.axes := (C16.reshape_spec a r newdims h).2
+
+/-- `reshape` of a plain array towards comma-free names (squeeze / transpose / insert singletons): the surviving
+axes are the very same axes, the others are fresh `None` singletons -/
+theorem reshape_plain_axis_attrs {α : Type} (a r : DimArray α) (hw : a.WF) (hpa : PlainAxes a.axes) (newdims : List String)
+    (hnd : newdims.Nodup) (hpn : ∀ d ∈ newdims, PlainName d)
+    (hfit : ∀ ax ∈ a.axes, ax.name ∉ newdims → ax.size = 1) (h : reshape a newdims = .ok r) :
+    (∀ ax ∈ a.axes, ax.name ∈ newdims → ax ∈ r.axes) ∧ (∀ ax ∈ r.axes, ax ∈ a.axes ∨ ax = noneAxis ax.name) ∧
+      AxisAttrsKept a.axes r.axes := C16.reshape_plain a r hw hpa newdims hnd hpn hfit h
+
+theorem alignDims_attrs {α : Type} (arrays rs : List (DimArray α)) (h : alignDims arrays = .ok rs) :
+    rs.map (·.attrs) = arrays.map (·.attrs) := (C16.alignDims_spec arrays rs h).1
+
+theorem alignDims_axis_attrs {α : Type} (arrays rs : List (DimArray α)) (h : alignDims arrays = .ok rs) :
+    ∀ r ∈ rs, ∃ a ∈ arrays, r.attrs = a.attrs ∧ ∀ p ∈ metaAll r.axes, p.2 = [] ∨ p ∈ metaAll a.axes :=
+  (C16.alignDims_spec arrays rs h).2
+
+theorem broadcast_attrs {α : Type} (a r : DimArray α) (target : List Axis) (h : broadcast a target = .ok r) :
+    r.attrs = a.attrs := (C16.broadcast_spec a r target h).1
+
+/-- `broadcast`, any input: every `(name, attrs)` pair of the result is empty, or a pair of `a`, or a pair of the
+target axes (a repeated axis IS the target axis) -/
+theorem broadcast_axis_attrs {α : Type} (a r : DimArray α) (target : List Axis) (h : broadcast a target = .ok r) :
+    ∀ p ∈ metaAll r.axes, p.2 = [] ∨ p ∈ metaAll a.axes ∨ p ∈ metaAll target := (C16.broadcast_spec a r target h).2
+
+/-- `broadcast` on plain arrays: an axis of `a` is kept as it is - unless it has one position and the target axis
+has not: then it is replaced by the target axis, with the TARGET's metadata -/
+theorem broadcast_plain_axis_attrs {α : Type} (a r : DimArray α) (hw : a.WF) (hpa : PlainAxes a.axes) (target : List Axis)
+    (hpt : PlainAxes target) (hnd : (target.map (·.name)).Nodup) (hpn : ∀ t ∈ target, PlainName t.name)
+    (hfit : ∀ ax ∈ a.axes, ax.name ∉ target.map (·.name) → ax.size = 1) (h : broadcast a target = .ok r) :
+    (∀ ax' ∈ r.axes, ∃ t ∈ target, ax' = bcastAxis a t) ∧
+    ∀ ax' ∈ r.axes, ∀ ax ∈ a.axes, ax'.name = ax.name → ax' = ax ∨ (ax.size = 1 ∧ ax' ∈ target) :=
+  C16.broadcast_plain a r hw hpa target hpt hnd hpn hfit h
+
+theorem broadcastArrays_attrs {α : Type} (arrays rs : List (DimArray α)) (h : broadcastArrays arrays = .ok rs) :
+    ∀ r ∈ rs, ∃ a ∈ arrays, r.attrs = a.attrs := C16.broadcastArrays_spec arrays rs h
+
+/-! ### binary operations (`Lib/Operation.lean`) : the ARRAY's metadata is dropped, the AXES' metadata is not -/
+
+theorem operation_attrs {α : Type} (nan : α) (f : α → α → α) (a b : DimArray α) (r : DimArray α × Kind × Kind)
+    (h : operation nan f a b = .ok r) : r.1.attrs = [] := (C16.operation_spec nan f a b r h).1
+
+/-- the axes of `a op b` are axes of the aligned operands (`ax.copy()`): every `(name, attrs)` pair of the result
+is empty or a pair of `a` or of `b` -/
+theorem operation_axis_attrs {α : Type} (nan : α) (f : α → α → α) (a b : DimArray α) (r : DimArray α × Kind × Kind)
+    (h : operation nan f a b = .ok r) :
+    ∀ p ∈ metaAll r.1.axes, p.2 = [] ∨ p ∈ metaAll a.axes ∨ p ∈ metaAll b.axes := (C16.operation_spec nan f a b r h).2
+
+theorem operationNd_attrs {α : Type} (f : α → α → α) (a r : DimArray α) (nd : NDArr α) (flip : Bool)
+    (h : operationNd f a nd flip = .ok r) : r.attrs = [] := (C16.operationNd_spec f a r nd flip h).1
+
+/-- with a scalar / ndarray operand the axes (and their metadata) are the DimArray's own -/
+theorem operationNd_axis_attrs {α : Type} (f : α → α → α) (a r : DimArray α) (nd : NDArr α) (flip : Bool)
+    (h : operationNd f a nd flip = .ok r) : r.axes = a.axes := (C16.operationNd_spec f a r nd flip h).2
+
+/-! ### joining (`Lib/Join.lean`) -/
+
+theorem stack_attrs {α : Type} [Inhabited α] (nan : α) (arrays : List (DimArray α)) (axis : Option String)
+    (keys : List Label) (kk : Kind) (doAlign sort : Bool) (r : DimArray α)
+    (h : stack nan arrays axis keys kk doAlign sort = .ok r) : r.attrs = [] :=
+  (C16.stack_spec' nan arrays axis keys kk doAlign sort r h).1
+
+/-- `stack`: the new axis has no metadata; every other axis has the name and the metadata of an axis of one of the
+inputs -/
+theorem stack_axis_attrs {α : Type} [Inhabited α] (nan : α) (arrays : List (DimArray α)) (axis : Option String)
+    (keys : List Label) (kk : Kind) (doAlign sort : Bool) (r : DimArray α)
+    (h : stack nan arrays axis keys kk doAlign sort = .ok r) :
+    ∃ (name : String) (rest : List Axis), r.axes = { name := name, labels := keys, kind := kk } :: rest ∧
+      ∀ x ∈ rest, ∃ a ∈ arrays, ∃ y ∈ a.axes, AxisLe x y :=
+  (C16.stack_spec' nan arrays axis keys kk doAlign sort r h).2
+
+theorem concatenate_attrs {α : Type} (nan : α) (arrays : List (DimArray α)) (axis : DimKey) (doAlign sort : Bool)
+    (r : DimArray α) (h : concatenate nan arrays axis doAlign sort = .ok r) : r.attrs = [] :=
+  (C16.concatenate_spec' nan arrays axis doAlign sort r h).1
+
+/-- `concatenate`: the concatenated axis is new, WITHOUT metadata; the other axes have the name and metadata of the
+FIRST array's axes -/
+theorem concatenate_axis_attrs {α : Type} (nan : α) (arrays : List (DimArray α)) (axis : DimKey) (doAlign sort : Bool)
+    (r : DimArray α) (h : concatenate nan arrays axis doAlign sort = .ok r) :
+    ∃ (a0 : DimArray α) (rest : List (DimArray α)) (pos : Nat), arrays = a0 :: rest ∧ pos < a0.axes.length ∧
+      axisMeta r.axes = (axisMeta a0.axes).set pos ((a0.axes.getD pos default).name, []) ∧
+      ((a0.axes.map (·.name)).Nodup → AxisAttrsKeptExcept (a0.axes.getD pos default).name a0.axes r.axes) := by
+  obtain ⟨_, a0, rest, pos, h1, h2, h3⟩ := C16.concatenate_spec' nan arrays axis doAlign sort r h
+  exact ⟨a0, rest, pos, h1, h2, h3, C16.keptExcept_of_set h3⟩
+
+/-! ### along-axis transforms (`Lib/Transform.lean`, `Lib/Missing.lean`) -/
+
+/-- reductions, any `axis=` (one dimension, or several collapsed into one first) -/
+theorem reduceAxis_attrs {α : Type} (red : List α → α) (a r : DimArray α) (ax : AxisArg)
+    (h : reduceAxis red a ax = .ok (.inr r)) : r.attrs = a.attrs := (C16.reduceAxis_spec red a r ax h).1
+
+/-- every remaining axis is the very same axis of `a` (for one dimension: all but the reduced one, in order) -/
+theorem reduceAxis_axis_attrs {α : Type} (red : List α → α) (a r : DimArray α) (ax : AxisArg)
+    (h : reduceAxis red a ax = .ok (.inr r)) :
+    (∀ x ∈ r.axes, x ∈ a.axes) ∧ ((a.axes.map (·.name)).Nodup → AxisAttrsKept a.axes r.axes) ∧
+    (∀ k, ax = .one k → ∃ pos, pos < a.axes.length ∧ r.axes = a.axes.eraseIdx pos) := by
+  refine ⟨(C16.reduceAxis_spec red a r ax h).2, C16.kept_of_mem (C16.reduceAxis_spec red a r ax h).2, ?_⟩
+  rintro k rfl
+  exact C16.reduceAxis_one red a r k h
+
+theorem argAxis_attrs {α : Type} (pick : List α → List Label → α) (a r : DimArray α) (ax : AxisArg)
+    (h : argAxis pick a ax = .ok (.inr r)) : r.attrs = a.attrs := (C16.argAxis_spec pick a r ax h).1
+
+theorem argAxis_axis_attrs {α : Type} (pick : List α → List Label → α) (a r : DimArray α) (ax : AxisArg)
+    (h : argAxis pick a ax = .ok (.inr r)) :
+    (∀ x ∈ r.axes, x ∈ a.axes) ∧ ((a.axes.map (·.name)).Nodup → AxisAttrsKept a.axes r.axes) ∧
+    (∀ k, ax = .one k → ∃ pos, pos < a.axes.length ∧ r.axes = a.axes.eraseIdx pos) := by
+  refine ⟨(C16.argAxis_spec pick a r ax h).2, C16.kept_of_mem (C16.argAxis_spec pick a r ax h).2, ?_⟩
+  rintro k rfl
+  exact C16.argAxis_one pick a r k h
+
+theorem cumAxis_attrs {α : Type} (scan : List α → α) (a r : DimArray α) (ax : AxisArg)
+    (h : cumAxis scan a ax = .ok (.inr r)) : r.attrs = a.attrs := (C16.cumAxis_spec scan a r ax h).1
+
+/-- cumulative transforms return the axes of the (possibly flattened, see `flatten_axis_attrs`) array; along one
+dimension they are the axes of `a` -/
+theorem cumAxis_axis_attrs {α : Type} (scan : List α → α) (a r : DimArray α) (ax : AxisArg)
+    (h : cumAxis scan a ax = .ok (.inr r)) :
+    (∃ o pos, dealWithAxis a ax = .ok (o, some pos) ∧ r.axes = o.axes) ∧ (∀ k, ax = .one k → r.axes = a.axes) := by
+  obtain ⟨_, o, pos, hd, e⟩ := C16.cumAxis_spec scan a r ax h
+  refine ⟨⟨o, pos, hd, e⟩, ?_⟩
+  rintro k rfl
+  rcases C16.dealWithAxis_spec a o _ _ hd with ⟨rfl, _, _⟩ | ⟨_, _, hk, _, _⟩
+  · exact e
+  · cases hk
+
+theorem diff1_attrs {α : Type} (sub : α → α → α) (nan : α) (o r : DimArray α) (pos : Nat) (scheme : Scheme)
+    (keepaxis : Bool) (h : diff1 sub nan o pos scheme keepaxis = .ok r) : r.attrs = o.attrs :=
+  (C16.diff1_spec sub nan o r pos scheme keepaxis h).1
+
+/-- one differencing step: the differenced axis keeps its name, and its metadata for the forward / backward
+schemes; the `centered` scheme builds a new axis WITHOUT metadata -/
+theorem diff1_axis_attrs {α : Type} (sub : α → α → α) (nan : α) (o r : DimArray α) (pos : Nat) (scheme : Scheme)
+    (keepaxis : Bool) (h : diff1 sub nan o pos scheme keepaxis = .ok r) :
+    ∃ newax : Axis, r.axes = o.axes.set pos newax ∧ newax.name = (o.axes.getD pos default).name ∧
+      newax.attrs = if scheme = .centered then [] else (o.axes.getD pos default).attrs :=
+  (C16.diff1_spec sub nan o r pos scheme keepaxis h).2
+
+theorem diffAxis_attrs {α : Type} (sub : α → α → α) (nan : α) (a r : DimArray α) (ax : AxisArg) (scheme : Scheme)
+    (keepaxis : Bool) (n : Nat) (h : diffAxis sub nan a ax scheme keepaxis n = .ok r) : r.attrs = a.attrs :=
+  (C16.diffAxis_spec sub nan a r ax scheme keepaxis n h).1
+
+/-- `diff` (any order `n`): names and metadata of the axes of the (possibly flattened) array, except that the
+`centered` scheme drops the metadata of the differenced axis -/
+theorem diffAxis_axis_attrs {α : Type} (sub : α → α → α) (nan : α) (a r : DimArray α) (ax : AxisArg) (scheme : Scheme)
+    (keepaxis : Bool) (n : Nat) (h : diffAxis sub nan a ax scheme keepaxis n = .ok r) :
+    ∃ o pos, dealWithAxis a ax = .ok (o, some pos) ∧ pos < o.axes.length ∧
+      axisMeta r.axes = if scheme = .centered
+        then (axisMeta o.axes).set pos ((o.axes.getD pos default).name, []) else axisMeta o.axes :=
+  (C16.diffAxis_spec sub nan a r ax scheme keepaxis n h).2
+
+theorem compressAxis_attrs {α : Type} (a r : DimArray α) (mask : List Bool) (k : DimKey)
+    (h : compressAxis a mask k = .ok r) : r.attrs = a.attrs := (C16.compressAxis_spec a r mask k h).1
+
+theorem compressAxis_axis_attrs {α : Type} (a r : DimArray α) (mask : List Bool) (k : DimKey)
+    (h : compressAxis a mask k = .ok r) :
+    axisMeta r.axes = axisMeta a.axes ∧ ((a.axes.map (·.name)).Nodup → AxisAttrsKept a.axes r.axes) :=
+  ⟨(C16.compressAxis_spec a r mask k h).2, C16.kept_of_eq (C16.compressAxis_spec a r mask k h).2⟩
+
+/-- `take_axis`, by label or by position, `mode='raise'` or `'clip'` -/
+theorem takeAxis_attrs {α : Type} (a r : DimArray α) (ix : List Label) (k : DimKey) (mode : Mode) (clip : Bool)
+    (h : takeAxis a ix k mode clip = .ok r) : r.attrs = a.attrs := (C16.takeAxis_spec a r ix k mode clip h).1
+
+theorem takeAxis_axis_attrs {α : Type} (a r : DimArray α) (ix : List Label) (k : DimKey) (mode : Mode) (clip : Bool)
+    (h : takeAxis a ix k mode clip = .ok r) :
+    axisMeta r.axes = axisMeta a.axes ∧ ((a.axes.map (·.name)).Nodup → AxisAttrsKept a.axes r.axes) :=
+  ⟨(C16.takeAxis_spec a r ix k mode clip h).2, C16.kept_of_eq (C16.takeAxis_spec a r ix k mode clip h).2⟩
+
+theorem dropna_attrs {α : Type} (isnan : α → Bool) (a r : DimArray α) (k : DimKey) (mv : Option Nat)
+    (h : dropna isnan a k mv = .ok r) : r.attrs = a.attrs := (C16.dropna_spec isnan a r k mv h).1
+
+theorem dropna_axis_attrs {α : Type} (isnan : α → Bool) (a r : DimArray α) (k : DimKey) (mv : Option Nat)
+    (h : dropna isnan a k mv = .ok r) :
+    axisMeta r.axes = axisMeta a.axes ∧ ((a.axes.map (·.name)).Nodup → AxisAttrsKept a.axes r.axes) :=
+  ⟨(C16.dropna_spec isnan a r k mv h).2, C16.kept_of_eq (C16.dropna_spec isnan a r k mv h).2⟩
+
+theorem fillna_attrs {α : Type} (isnan : α → Bool) (a : DimArray α) (fill : α) (fk : Kind) :
+    (fillna isnan a fill fk).attrs = a.attrs := rfl
+theorem fillna_axis_attrs {α : Type} (isnan : α → Bool) (a : DimArray α) (fill : α) (fk : Kind) :
+    (fillna isnan a fill fk).axes = a.axes := rfl
+theorem setna_attrs {α : Type} (hit : List Nat → Bool) (nan : α) (a : DimArray α) : (setna hit nan a).attrs = a.attrs := rfl
+theorem setna_axis_attrs {α : Type} (hit : List Nat → Bool) (nan : α) (a : DimArray α) : (setna hit nan a).axes = a.axes := rfl
+
+/-! ### interpolation (`Lib/Interp.lean`) -/
+
+theorem interpAxis_attrs {α : Type} [Inhabited α] (lin : α → α → Rat → α) (a r : DimArray α) (k : DimKey)
+    (newL : List Label) (nk : Kind) (left right : α) (h : interpAxis lin a k newL nk left right = .ok r) :
+    r.attrs = a.attrs := (C16.interpAxis_spec lin a r k newL nk left right h).1
+
+/-- `interp_axis`: the interpolated axis is a NEW axis (`Axis(values, name)`): it keeps the name and LOSES its
+metadata; the other axes keep theirs -/
+theorem interpAxis_axis_attrs {α : Type} [Inhabited α] (lin : α → α → Rat → α) (a r : DimArray α) (k : DimKey)
+    (newL : List Label) (nk : Kind) (left right : α) (h : interpAxis lin a k newL nk left right = .ok r) :
+    ∃ pos, pos < a.axes.length ∧ axisMeta r.axes = (axisMeta a.axes).set pos ((a.axes.getD pos default).name, []) ∧
+      ((a.axes.map (·.name)).Nodup → AxisAttrsKeptExcept (a.axes.getD pos default).name a.axes r.axes) := by
+  obtain ⟨_, pos, h1, h2⟩ := C16.interpAxis_spec lin a r k newL nk left right h
+  exact ⟨pos, h1, h2, C16.keptExcept_of_set h2⟩
+
+
+/-! ### Dataset operations (`Lib/DatasetOps.lean`): Dataset-level metadata, the variables' metadata, and the metadata
+of the operated axis -/
+
+open DSV in
+/-- `Dataset.__setitem__` keeps the Dataset's metadata and stores the variable with its own -/
+theorem setItem_attrs {α : Type} (ds r : Ds α) (k : String) (v : DimArray α) (h : setItem ds k v = .ok r) :
+    r.attrs = ds.attrs ∧ ∀ kv ∈ r.vars, kv ∈ ds.vars ∨ (kv.1 = k ∧ kv.2.attrs = v.attrs) :=
+  ⟨(C16.setItem_spec ds r k v h).1, (C16.setItem_spec ds r k v h).2.2.2⟩
+
+open DSV in
+/-- `Dataset(dict)` starts without metadata; every variable keeps its own (through the alignment) -/
+theorem fromVars_attrs {α : Type} (nan : α) (vars : List (String × DimArray α)) (r : Ds α) (h : fromVars nan vars = .ok r) :
+    r.attrs = [] ∧ ∀ kv ∈ r.vars, ∃ kv0 ∈ vars, kv.2.attrs = kv0.2.attrs := C16.fromVars_spec nan vars r h
+
+open DSV in
+/-- `Dataset.reduce_axis(..., keepattrs=True, newaxis=...)`: Dataset and variable metadata kept; the operated axis is
+exactly the axis that was passed -/
+theorem reduceAxisKeep_attrs {α : Type} (ds r : Ds α) (name : String) (newAxis : Axis) (f : Nat → DimArray α → NDArr α)
+    (hname : newAxis.name = name) (h : reduceAxisKeep ds name newAxis f = .ok r) :
+    r.attrs = ds.attrs ∧ (∀ e ∈ r.axes, e.name = name → e = newAxis) ∧ (∃ e ∈ r.axes, e = newAxis) ∧
+    (∀ kv ∈ r.vars, ∃ kv0 ∈ ds.vars, kv.2.attrs = kv0.2.attrs) := C16.reduceAxisKeep_spec ds r name newAxis f hname h
+
+open DSV in
+/-- `Dataset.take_axis` (by position): Dataset and variable metadata kept, but the taken AXIS comes back WITHOUT its
+metadata (`Axis(np.take(labels, positions), name)`), unlike `DimArray.take_axis` (`takeAxis_axis_attrs`) -/
+theorem takeAxisPosDs_attrs {α : Type} (ds r : Ds α) (name : String) (ps : List Nat) (h : takeAxisPosDs ds name ps = .ok r) :
+    r.attrs = ds.attrs ∧ (∀ e ∈ r.axes, e.name = name → e.attrs = []) ∧ (∃ e ∈ r.axes, e.name = name) ∧
+    (∀ kv ∈ r.vars, ∃ kv0 ∈ ds.vars, kv.2.attrs = kv0.2.attrs) := C16.takeAxisPosDs_spec ds r name ps h
+
+open DSV in
+theorem takeAxisLabel_attrs {α : Type} (ds r : Ds α) (name : String) (labels : List Label) (clip : Bool)
+    (h : takeAxisLabel ds name labels clip = .ok r) :
+    r.attrs = ds.attrs ∧ (∀ e ∈ r.axes, e.name = name → e.attrs = []) ∧ (∃ e ∈ r.axes, e.name = name) ∧
+    (∀ kv ∈ r.vars, ∃ kv0 ∈ ds.vars, kv.2.attrs = kv0.2.attrs) := C16.takeAxisLabel_spec ds r name labels clip h
+
+open DSV in
+/-- `Dataset.sort_axis`: the sorted axis loses its metadata -/
+theorem sortAxisDs_attrs {α : Type} (ds r : Ds α) (name : String) (h : sortAxisDs ds name = .ok r) :
+    r.attrs = ds.attrs ∧ (∀ e ∈ r.axes, e.name = name → e.attrs = []) ∧ (∃ e ∈ r.axes, e.name = name) ∧
+    (∀ kv ∈ r.vars, ∃ kv0 ∈ ds.vars, kv.2.attrs = kv0.2.attrs) := C16.sortAxisDs_spec ds r name h
+
+open DSV in
+/-- `Dataset.reindex_axis`: the reindexed axis loses its metadata (contrast `reindexAxis_axis_attrs`) -/
+theorem reindexAxisDs_attrs {α : Type} (ds r : Ds α) (name : String) (newL : List Label) (nk : Kind) (fill : α) (fk : Kind)
+    (h : reindexAxisDs ds name newL nk fill fk = .ok r) :
+    r.attrs = ds.attrs ∧ (∀ e ∈ r.axes, e.name = name → e.attrs = []) ∧ (∃ e ∈ r.axes, e.name = name) ∧
+    (∀ kv ∈ r.vars, ∃ kv0 ∈ ds.vars, kv.2.attrs = kv0.2.attrs) := C16.reindexAxisDs_spec ds r name newL nk fill fk h
+
+open DSV in
+/-- `Dataset.mean / sum / ...` (`_apply_dimarray_axis` returns `Dataset(d)`): the Dataset's metadata is DROPPED -/
+theorem applyAxis_attrs {α : Type} (nan : α) (ds r : Ds α) (name : String) (f : DimArray α → Except Err (DimArray α))
+    (h : applyAxis nan ds name f = .ok r) : r.attrs = [] := C16.applyAxis_spec nan ds r name f h
+
+open DSV in
+/-- `Dataset.take`: Dataset and variable metadata kept -/
+theorem takeDs_attrs {α : Type} (ds r : Ds α) (name : String) (ix : Ix) (cfg : IndexCfg) (h : takeDs ds name ix cfg = .ok r) :
+    r.attrs = ds.attrs ∧ ∀ kv ∈ r.vars, ∃ kv0 ∈ ds.vars, kv.2.attrs = kv0.2.attrs := C16.takeDs_spec ds r name ix cfg h
+
+/-! ### non-vacuity: the success hypotheses on concrete arrays that carry array-level and axis-level metadata,
+and the exact metadata of the results where an axis LOSES or CHANGES its metadata -/
+
+/-- 3-d test array (x: 3 unsorted numeric labels, y: 2 numeric labels, z: 1 string label); every axis and the array
+carry metadata -/
+def exC16 : DimArray Int :=
+  { axes := [{ name := "x", labels := [.num 3, .num 1, .num 2], kind := .i, attrs := [("units", 1)] },
+             { name := "y", labels := [.num 10, .num 20], kind := .f, attrs := [("long_name", 2)] },
+             { name := "z", labels := [.str "a"], kind := .U, attrs := [("note", 3)] }]
+    vals := { shape := [3, 2, 1], get := fun j => (ravel [3, 2, 1] j : Nat) }
+    attrs := [("title", 5)] }
+
+/-- a second array over the same dimensions with other labels along `x` and other metadata -/
+def exC16b : DimArray Int :=
+  { axes := [{ name := "x", labels := [.num 4, .num 5], kind := .i, attrs := [("units", 7)] },
+             { name := "y", labels := [.num 10, .num 20], kind := .f, attrs := [("long_name", 8)] },
+             { name := "z", labels := [.str "a"], kind := .U }]
+    vals := { shape := [2, 2, 1], get := fun j => (ravel [2, 2, 1] j : Nat) }
+    attrs := [("title", 6)] }
+
+theorem exC16_wf : exC16.WF := ⟨rfl, by decide, by decide⟩
+theorem exC16_nodup : (exC16.axes.map (·.name)).Nodup := by decide
+
+theorem ok_of_toBool {β : Type} {x : Except Err β} (h : x.toBool = true) : ∃ r, x = .ok r := by
+  cases x with
+  | error e => cases h
+  | ok r => exact ⟨r, rfl⟩
+
+/-- indexing by a dict, one scalar: `y` is dropped, `x` and `z` keep their metadata -/
+example : ∃ r, take exC16 (.dict [(.name "y", .scalar (.num 20))]) {} = .ok r ∧ r.attrs = [("title", 5)] ∧
+    AxisAttrsKept exC16.axes r.axes := by
+  obtain ⟨r, h⟩ := ok_of_toBool (x := take exC16 (.dict [(.name "y", .scalar (.num 20))]) {}) (by decide)
+  exact ⟨r, h, take_attrs _ _ _ _ h, (take_axis_attrs _ _ _ _ h).2 exC16_nodup⟩
+
+/-- position mode with `keepdims` -/
+example : ∃ r, take exC16 (.axisArg (.scalar (.num 1)) (.pos 0)) { indexing := some .position, keepdims := true } = .ok r ∧
+    r.attrs = [("title", 5)] ∧ AxisAttrsKept exC16.axes r.axes := by
+  obtain ⟨r, h⟩ := ok_of_toBool
+    (x := take exC16 (.axisArg (.scalar (.num 1)) (.pos 0)) { indexing := some .position, keepdims := true }) (by decide)
+  exact ⟨r, h, take_attrs _ _ _ _ h, (take_axis_attrs _ _ _ _ h).2 exC16_nodup⟩
+
+example : ∃ r, put exC16 (.dict [(.name "x", .scalar (.num 1))]) (.scalar 0) .i {} false = .ok r ∧
+    r.attrs = [("title", 5)] ∧ r.axes = exC16.axes := by
+  obtain ⟨r, h⟩ := ok_of_toBool (x := put exC16 (.dict [(.name "x", .scalar (.num 1))]) (.scalar 0) .i {} false) (by decide)
+  exact ⟨r, h, put_attrs _ _ _ _ _ _ _ h, put_axis_attrs _ _ _ _ _ _ _ h⟩
+
+/-- reindexing `x` onto labels of which one is new: all three axes keep their metadata (success:
+`reindexAxis_succeeds`, C07 - the kernel cannot evaluate the `mergeSort` inside `locate_many`) -/
+example : ∃ r, reindexAxis exC16 (.name "x") [.num 1, .num 7] .i (-1) .i false none = .ok r ∧
+    r.attrs = [("title", 5)] ∧
+    axisMeta r.axes = [("x", [("units", 1)]), ("y", [("long_name", 2)]), ("z", [("note", 3)])] := by
+  obtain ⟨r, h⟩ := reindexAxis_succeeds exC16 (.name "x") 0 [.num 1, .num 7] .i .i (-1) none rfl (Or.inl (by decide))
+  exact ⟨r, h, reindexAxis_attrs _ _ _ _ _ _ _ _ _ h, (reindexAxis_axis_attrs _ _ _ _ _ _ _ _ _ h).1⟩
+
+example : ∃ r, sortAxis exC16 (.name "x") = .ok r ∧ r.attrs = [("title", 5)] ∧ AxisAttrsKept exC16.axes r.axes := by
+  obtain ⟨r, h⟩ := ok_of_toBool (x := sortAxis exC16 (.name "x")) (by decide)
+  exact ⟨r, h, sortAxis_attrs _ _ _ h, (sortAxis_axis_attrs _ _ _ h).2 exC16_nodup⟩
+
+example : ∃ r, transpose exC16 (some [.name "z", .pos 0, .pos (-2)]) = .ok r ∧ r.attrs = [("title", 5)] ∧
+    r.axes.Perm exC16.axes := by
+  obtain ⟨r, h⟩ := ok_of_toBool (x := transpose exC16 (some [.name "z", .pos 0, .pos (-2)])) (by decide)
+  exact ⟨r, h, transpose_attrs _ _ _ h, (transpose_axis_attrs _ _ _ h).1⟩
+
+example : ∃ r, swapaxes exC16 (.name "x") (.pos (-1)) = .ok r ∧ r.attrs = [("title", 5)] ∧ r.axes.Perm exC16.axes := by
+  obtain ⟨r, h⟩ := ok_of_toBool (x := swapaxes exC16 (.name "x") (.pos (-1))) (by decide)
+  exact ⟨r, h, swapaxes_attrs _ _ _ _ h, (swapaxes_axis_attrs _ _ _ _ h).1⟩
+
+example : ∃ r, rollaxis exC16 (.name "z") 0 = .ok r ∧ r.attrs = [("title", 5)] ∧ r.axes.Perm exC16.axes := by
+  obtain ⟨r, h⟩ := ok_of_toBool (x := rollaxis exC16 (.name "z") 0) (by decide)
+  exact ⟨r, h, rollaxis_attrs _ _ _ _ h, (rollaxis_axis_attrs _ _ _ _ h).1⟩
+
+example : ∃ r, newaxis exC16 "t" (-1) none = .ok r ∧ r.attrs = [("title", 5)] ∧ AxisAttrsKept exC16.axes r.axes := by
+  obtain ⟨r, h⟩ := ok_of_toBool (x := newaxis exC16 "t" (-1) none) (by decide)
+  exact ⟨r, h, newaxis_attrs _ _ _ _ _ h, (newaxis_axis_attrs _ _ _ _ _ h).2.2 exC16_nodup⟩
+
+example : ∃ r, squeeze exC16 none = .ok r ∧ r.attrs = [("title", 5)] ∧ r.axes.Sublist exC16.axes := by
+  obtain ⟨r, h⟩ := ok_of_toBool (x := squeeze exC16 none) (by decide)
+  exact ⟨r, h, squeeze_attrs _ _ _ h, (squeeze_axis_attrs _ _ _ h).1⟩
+
+example : ∃ r, flatten exC16 ["z", "x"] none = .ok r ∧ r.attrs = [("title", 5)] := by
+  obtain ⟨r, h⟩ := ok_of_toBool (x := flatten exC16 ["z", "x"] none) (by decide)
+  exact ⟨r, h, flatten_attrs _ _ _ _ h⟩
+
+/-- the grouped axis has no metadata, its members have theirs -/
+theorem flatten_example :
+    ((flatten exC16 ["z", "x"] none).toOption.map fun r => metaAll r.axes) =
+      some [("y", [("long_name", 2)]), ("z,x", []), ("z", [("note", 3)]), ("x", [("units", 1)])] := by decide
+
+example : ∃ r, reduceAxis (fun l => l.sum) exC16 (.one (.pos (-2))) = .ok (.inr r) ∧ r.attrs = [("title", 5)] ∧
+    AxisAttrsKept exC16.axes r.axes := by
+  have : ∃ r, reduceAxis (fun l => l.sum) exC16 (.one (.pos (-2))) = .ok (.inr r) := ⟨_, rfl⟩
+  obtain ⟨r, h⟩ := this
+  exact ⟨r, h, reduceAxis_attrs _ _ _ _ h, (reduceAxis_axis_attrs _ _ _ _ h).2.1 exC16_nodup⟩
+
+/-- reduction over two dimensions at once (collapsed into one grouped axis first) -/
+example : ∃ r, reduceAxis (fun l => l.sum) exC16 (.many [.name "y", .name "x"]) = .ok (.inr r) ∧
+    r.attrs = [("title", 5)] ∧ AxisAttrsKept exC16.axes r.axes := by
+  have : ∃ r, reduceAxis (fun l => l.sum) exC16 (.many [.name "y", .name "x"]) = .ok (.inr r) := ⟨_, rfl⟩
+  obtain ⟨r, h⟩ := this
+  exact ⟨r, h, reduceAxis_attrs _ _ _ _ h, (reduceAxis_axis_attrs _ _ _ _ h).2.1 exC16_nodup⟩
+
+example : ∃ r, cumAxis (fun l => l.sum) exC16 (.one (.name "y")) = .ok (.inr r) ∧ r.attrs = [("title", 5)] ∧
+    r.axes = exC16.axes := by
+  have : ∃ r, cumAxis (fun l => l.sum) exC16 (.one (.name "y")) = .ok (.inr r) := ⟨_, rfl⟩
+  obtain ⟨r, h⟩ := this
+  exact ⟨r, h, cumAxis_attrs _ _ _ _ h, (cumAxis_axis_attrs _ _ _ _ h).2 _ rfl⟩
+
+example : ∃ r, diffAxis (· - ·) 0 exC16 (.one (.name "x")) .forward true 2 = .ok r ∧ r.attrs = [("title", 5)] := by
+  obtain ⟨r, h⟩ := ok_of_toBool (x := diffAxis (· - ·) 0 exC16 (.one (.name "x")) .forward true 2) (by decide)
+  exact ⟨r, h, diffAxis_attrs _ _ _ _ _ _ _ _ h⟩
+
+example : ∃ r, takeAxis exC16 [.num (-1), .num 0] (.name "x") .position false = .ok r ∧ r.attrs = [("title", 5)] ∧
+    AxisAttrsKept exC16.axes r.axes := by
+  obtain ⟨r, h⟩ := ok_of_toBool (x := takeAxis exC16 [.num (-1), .num 0] (.name "x") .position false) (by decide)
+  exact ⟨r, h, takeAxis_attrs _ _ _ _ _ _ h, (takeAxis_axis_attrs _ _ _ _ _ _ h).2 exC16_nodup⟩
+
+example : ∃ r, takeAxis exC16 [.num 1, .num 9] (.name "x") .label true = .ok r ∧ r.attrs = [("title", 5)] ∧
+    AxisAttrsKept exC16.axes r.axes := by
+  obtain ⟨r, h⟩ := ok_of_toBool (x := takeAxis exC16 [.num 1, .num 9] (.name "x") .label true) (by decide)
+  exact ⟨r, h, takeAxis_attrs _ _ _ _ _ _ h, (takeAxis_axis_attrs _ _ _ _ _ _ h).2 exC16_nodup⟩
+
+example : ∃ r, compressAxis exC16 [true, false, true] (.name "x") = .ok r ∧ r.attrs = [("title", 5)] ∧
+    AxisAttrsKept exC16.axes r.axes := by
+  obtain ⟨r, h⟩ := ok_of_toBool (x := compressAxis exC16 [true, false, true] (.name "x")) (by decide)
+  exact ⟨r, h, compressAxis_attrs _ _ _ _ h, (compressAxis_axis_attrs _ _ _ _ h).2 exC16_nodup⟩
+
+example : ∃ r, dropna (· == 0) exC16 (.name "x") none = .ok r ∧ r.attrs = [("title", 5)] ∧
+    AxisAttrsKept exC16.axes r.axes := by
+  obtain ⟨r, h⟩ := ok_of_toBool (x := dropna (· == 0) exC16 (.name "x") none) (by decide)
+  exact ⟨r, h, dropna_attrs _ _ _ _ _ h, (dropna_axis_attrs _ _ _ _ _ h).2 exC16_nodup⟩
+
+/-- arithmetic: the array's metadata is dropped, no foreign axis metadata appears (success: C04) -/
+example : ∃ r k1 k2, operation (-1) (· + ·) exC16 exC16b = .ok (r, k1, k2) ∧ r.attrs = [] ∧
+    ∀ p ∈ metaAll r.axes, p.2 = [] ∨ p ∈ metaAll exC16.axes ∨ p ∈ metaAll exC16b.axes := by
+  obtain ⟨r, k1, k2, h⟩ := operation_same_dims_succeeds (-1) (· + ·) exC16 exC16b
+    (by unfold AlignInput exC16; decide) (by unfold AlignInput exC16b; decide) rfl
+  exact ⟨r, k1, k2, h, operation_attrs _ _ _ _ _ h, operation_axis_attrs _ _ _ _ _ h⟩
+
+/-! #### where an axis loses or changes its metadata (exact results, by evaluation) -/
+
+/-- `interp_axis`: the interpolated axis `y` comes back WITHOUT its metadata; the array and the other axes keep theirs -/
+theorem interpAxis_example :
+    ((interpAxis (fun a b _ => a + b) exC16 (.name "y") [.num 15] .f 0 0).toOption.map fun r => (r.attrs, axisMeta r.axes)) =
+      some ([("title", 5)], [("x", [("units", 1)]), ("y", []), ("z", [("note", 3)])]) := by decide
+
+/-- hence the by-name rule is FALSE for `interp_axis` without the exception of the interpolated axis -/
+theorem interpAxis_axis_attrs_counterexample :
+    ∃ r, interpAxis (fun a b _ => a + b) exC16 (.name "y") [.num 15] .f 0 0 = .ok r ∧ ¬ AxisAttrsKept exC16.axes r.axes := by
+  obtain ⟨r, h⟩ := ok_of_toBool (x := interpAxis (fun a b _ => a + b) exC16 (.name "y") [.num 15] .f 0 0) (by decide)
+  refine ⟨r, h, ?_⟩
+  have hm := interpAxis_example
+  rw [h] at hm
+  simp only [Except.toOption, Option.map_some, Option.some.injEq, Prod.mk.injEq] at hm
+  intro hk
+  have hy : ("y", ([] : Attrs)) ∈ axisMeta r.axes := by rw [hm.2]; decide
+  obtain ⟨ax', hax', hn, ha⟩ := C16.mem_axisMeta.mp hy
+  have := hk ax' hax' (exC16.axes.getD 1 default) (by decide) (by rw [hn]; rfl)
+  rw [ha] at this
+  exact absurd this (by decide)
+
+/-- `repeat`: the repeated axis `z` carries the metadata of the axis given as `values`, not its own -/
+theorem repeatAxis_example :
+    ((repeatAxis exC16 { name := "w", labels := [.num 1, .num 2], kind := .i, attrs := [("new", 9)] } (.name "z")).toOption.map
+        fun r => (r.attrs, axisMeta r.axes)) =
+      some ([("title", 5)], [("x", [("units", 1)]), ("y", [("long_name", 2)]), ("z", [("new", 9)])]) := by decide
+
+/-- `diff(scheme='centered')`: the differenced axis loses its metadata -/
+theorem diffAxis_centered_example :
+    ((diffAxis (· - ·) 0 exC16 (.one (.name "x")) .centered false 1).toOption.map fun r => (r.attrs, axisMeta r.axes)) =
+      some ([("title", 5)], [("x", []), ("y", [("long_name", 2)]), ("z", [("note", 3)])]) := by decide
+
+/-- `concatenate`: no array metadata; the concatenated axis has none, the others have the first array's -/
+theorem concatenate_example :
+    ((concatenate (-1) [exC16, exC16b] (.name "x") false false).toOption.map fun r => (r.attrs, axisMeta r.axes)) =
+      some ([], [("x", []), ("y", [("long_name", 2)]), ("z", [("note", 3)])]) := by decide
+
+/-- `stack`: no array metadata; the new axis has none, the others keep theirs -/
+theorem stack_example :
+    ((stack (-1) [exC16, exC16] none [.str "p", .str "q"] .U false false).toOption.map fun r => (r.attrs, axisMeta r.axes)) =
+      some ([], [("unnamed", []), ("x", [("units", 1)]), ("y", [("long_name", 2)]), ("z", [("note", 3)])]) := by decide
+
+/-- a broadcast target over the same dimensions whose `z` axis has two labels and its own metadata -/
+def exC16Target : List Axis :=
+  [exC16.axes.getD 0 default, exC16.axes.getD 1 default,
+   { name := "z", labels := [.str "p", .str "q"], kind := .U, attrs := [("tgt", 4)] }]
+
+/-- `broadcast` IN THE MIRROR: the repeated axis `z` carries the TARGET axis' metadata (`repeatAxis o t ...` is given
+the whole target axis).  DISCREPANCY: the Python code calls `newobj.repeat(newaxis.values, axis=newaxis.name)`
+(core/reshape.py, `broadcast`) - the labels only - so that in the library the repeated axis is a fresh
+`Axis(values, name)` WITHOUT metadata (observed: `('z', {})`).  Neither keeps the metadata `("note", 3)` of `a`'s own
+singleton axis. -/
+theorem broadcast_example :
+    ((broadcast exC16 exC16Target).toOption.map fun r => (r.attrs, axisMeta r.axes)) =
+      some ([("title", 5)], [("x", [("units", 1)]), ("y", [("long_name", 2)]), ("z", [("tgt", 4)])]) := by decide
+
+/-- `Axis.intersection` with an empty axis forgets the metadata; `Axis.union` of an EMPTY axis with another one
+returns the other one's -/
+theorem intersection_empty_example :
+    (intersection (exC16.axes.getD 0 default) { name := "x", labels := [], kind := .i }).attrs = [] := by decide
+theorem union_empty_example :
+    (union { name := "x", labels := [], kind := .i, attrs := [("mine", 1)] } (exC16.axes.getD 0 default)).attrs =
+      [("units", 1)] := by decide
+
+/-!
+## Summary: metadata propagation of every modelled operation
+
+`kept` = the result's array metadata equals the input's; `dropped` = it is `[]`.  Axis column: what happens to the
+metadata of the axes (by name).  Every entry is a theorem of this file (or the one named).
+
+| Lib function                       | array attrs | theorem                 | axis attrs                                                   | theorem                          |
+|------------------------------------|-------------|-------------------------|--------------------------------------------------------------|----------------------------------|
+| `take` (all index forms)           | kept        | `take_attrs`            | surviving axes keep theirs (sublist, in order)               | `take_axis_attrs`                |
+| `put`                              | kept        | `put_attrs`             | same axes                                                    | `put_axis_attrs`                 |
+| `putBool`                          | kept        | `putBool_attrs`         | same axes                                                    | `putBool_axis_attrs`             |
+| `takeAxisPos`                      | kept        | `takeAxisPos_attrs`     | all kept                                                     | `takeAxisPos_axis_attrs`         |
+| `reindexAxis`                      | kept        | `reindexAxis_attrs`     | all kept, the reindexed axis included                        | `reindexAxis_axis_attrs`         |
+| `reindexLike`                      | kept        | `reindexLike_attrs`     | all kept (own metadata, never the template's)                | `reindexLike_axis_attrs`         |
+| `sortAxis`                         | kept        | `sortAxis_attrs`        | all kept                                                     | `sortAxis_axis_attrs`            |
+| `union` (Axis)                     | -           |                         | `self`'s; an empty `self` returns `other`'s                  | `union_axis_attrs`               |
+| `intersection` (Axis)              | -           |                         | `self`'s; DROPPED when one of the two is empty               | `intersection_axis_attrs`        |
+| `commonAxis`                       | -           |                         | one of the inputs', or none                                  | `commonAxis_axis_attrs`          |
+| `align`                            | kept (each) | `align_attrs`           | every array keeps its own (the common axis' are not used)    | `align_axis_attrs`               |
+| `transposeBy`                      | kept        | `transposeBy_attrs` C10 | same axes, permuted                                          | `transposeBy_axis_attrs`         |
+| `transpose`                        | kept        | `transpose_attrs`       | same axes, permuted                                          | `transpose_axis_attrs`           |
+| `swapaxes`                         | kept        | `swapaxes_attrs`        | same axes, permuted                                          | `swapaxes_axis_attrs`            |
+| `rollaxis`                         | kept        | `rollaxis_attrs`        | same axes, permuted                                          | `rollaxis_axis_attrs`            |
+| `repeatAxis`                       | kept        | `repeatAxis_attrs`      | repeated axis takes the NEW axis' metadata; others kept      | `repeatAxis_axis_attrs`          |
+| `newaxis`                          | kept        | `newaxis_attrs`         | old axes kept; new axis: none (or that of `values`)          | `newaxis_axis_attrs`             |
+| `squeeze`                          | kept        | `squeeze_attrs`         | remaining axes are the same axes                             | `squeeze_axis_attrs`             |
+| `unflattenAt`                      | kept        | `unflattenAt_attrs`     | members come back with theirs; the group's own is dropped    | `unflattenAt_axis_attrs`         |
+| `unflattenAll`                     | kept        | `unflattenAll_attrs`    | every axis is an axis of `a` or a member of a group of `a`   | `unflattenAll_axis_attrs`        |
+| `flatten`                          | kept        | `flatten_attrs`         | others same; group: none; members keep theirs                | `flatten_axis_attrs`             |
+| `reshape`                          | kept        | `reshape_attrs`         | no foreign metadata; plain case: surviving axes are the same | `reshape_axis_attrs`, `reshape_plain_axis_attrs` |
+| `alignDims`                        | kept (each) | `alignDims_attrs`       | as `reshape`, array by array                                 | `alignDims_axis_attrs`           |
+| `broadcast`                        | kept        | `broadcast_attrs`       | `a`'s or the target's; plain case: replaced only if repeated (MIRROR ≠ Python for the repeated axis, see `broadcast_example`) | `broadcast_axis_attrs`, `broadcast_plain_axis_attrs` |
+| `broadcastArrays`                  | kept (each) | `broadcastArrays_attrs` | (as `broadcast`)                                             |                                  |
+| `operation` (DimArray, DimArray)   | DROPPED     | `operation_attrs`       | KEPT: pairs of `a` or `b` (or none), nothing foreign         | `operation_axis_attrs`           |
+| `operationNd` (scalar / ndarray)   | DROPPED     | `operationNd_attrs`     | same axes                                                    | `operationNd_axis_attrs`         |
+| `stack`                            | DROPPED     | `stack_attrs`           | new axis: none; the others: those of an input's axis         | `stack_axis_attrs`               |
+| `concatenate`                      | DROPPED     | `concatenate_attrs`     | concatenated axis: DROPPED; the others: the first array's    | `concatenate_axis_attrs`         |
+| `reduceAxis` (any `axis=`)         | kept        | `reduceAxis_attrs`      | remaining axes are the same axes                             | `reduceAxis_axis_attrs`          |
+| `argAxis`                          | kept        | `argAxis_attrs`         | remaining axes are the same axes                             | `argAxis_axis_attrs`             |
+| `cumAxis`                          | kept        | `cumAxis_attrs`         | same axes (of the flattened array for several dimensions)    | `cumAxis_axis_attrs`             |
+| `diff1`, `diffAxis`                | kept        | `diffAxis_attrs`        | kept; `centered` scheme DROPS that of the differenced axis   | `diff1_axis_attrs`, `diffAxis_axis_attrs` |
+| `compressAxis`                     | kept        | `compressAxis_attrs`    | all kept                                                     | `compressAxis_axis_attrs`        |
+| `takeAxis` (label / position)      | kept        | `takeAxis_attrs`        | all kept                                                     | `takeAxis_axis_attrs`            |
+| `dropna`                           | kept        | `dropna_attrs`          | all kept                                                     | `dropna_axis_attrs`              |
+| `fillna`, `setna`                  | kept        | `fillna_attrs`, `setna_attrs` | same axes                                              | `fillna_axis_attrs`, `setna_axis_attrs` |
+| `interpAxis`                       | kept        | `interpAxis_attrs`      | interpolated axis: DROPPED; others kept                      | `interpAxis_axis_attrs`, `interpAxis_axis_attrs_counterexample` |
+| `DSV.setItem`                      | kept (Dataset), variable keeps its own | `setItem_attrs` |                                       |                                  |
+| `DSV.fromVars` (`Dataset(dict)`)   | `[]` (new Dataset), variables keep theirs | `fromVars_attrs` |                                   |                                  |
+| `DSV.reduceAxisKeep`               | kept (Dataset and variables) | `reduceAxisKeep_attrs` | operated axis = the axis passed in                   | `reduceAxisKeep_attrs`           |
+| `DSV.takeAxisPosDs`, `takeAxisLabel` | kept (Dataset and variables) | `takeAxisPosDs_attrs`, `takeAxisLabel_attrs` | operated axis: DROPPED       | same                             |
+| `DSV.sortAxisDs`                   | kept (Dataset and variables) | `sortAxisDs_attrs` | operated axis: DROPPED                                  | same                             |
+| `DSV.reindexAxisDs`                | kept (Dataset and variables) | `reindexAxisDs_attrs` | operated axis: DROPPED                               | same                             |
+| `DSV.applyAxis` (`Dataset.mean` …) | Dataset metadata DROPPED | `applyAxis_attrs`  |                                                              |                                  |
+| `DSV.takeDs`                       | kept (Dataset and variables) | `takeDs_attrs` |                                                              |                                  |
+-/
 
 end DimModel
